@@ -1621,8 +1621,20 @@ def call_builtin_class(I, st, c, args, kwargs):
         yield st, ExcVal(c, args)
         return
     if n == "int":
+        if len(args) > 1 or kwargs:
+            # int(text, base): python's own conversion on concrete arguments (the base must not be dropped)
+            base = args[1] if len(args) > 1 else kwargs.get("base")
+            if len(args) > 2 or set(kwargs) - {"base"} or not args or not isinstance(args[0], str) or not isinstance(base, int) or isinstance(base, bool):
+                raise Unsupported("int() with these arguments")
+            try:
+                yield st, int(args[0], base)
+            except ValueError as e:
+                yield st, exc("ValueError", str(e))
+            return
         yield from to_int(I, st, args[0] if args else 0)
     elif n == "float":
+        if len(args) > 1 or kwargs:
+            raise Unsupported("float() with more than one argument")
         yield from to_float(I, st, args[0] if args else Fraction(0))
     elif n == "bool":
         yield st, I.truth(args[0], st) if args else False
@@ -1775,8 +1787,10 @@ def to_int(I, st, v):
                 raise Unsupported("__int__ returning a bool")
             else:
                 yield st1, exc("TypeError", "__int__ returned non-int")
+    elif v is None or isinstance(v, tuple) or (isinstance(v, Ref) and st.get(v).kind in ("list", "dict", "set")):
+        yield st, exc("TypeError", "int() argument must be a string, a bytes-like object or a real number")
     else:
-        yield st, exc("TypeError", "int() argument")
+        raise Unsupported("int() of %r" % (v,))  # bytes, float('inf') (OverflowError), objects with __index__ / __trunc__ ...
 
 
 def _FmtStr():
@@ -1845,10 +1859,12 @@ def to_float(I, st, v):
         yield st, to_frac(f)
     elif is_z3(v) and z3.is_int(v):
         yield st, z3.ToReal(v)
-    elif is_z3(v):
+    elif is_z3(v) and z3.is_real(v):
         yield st, v
+    elif v is None or isinstance(v, tuple) or (isinstance(v, Ref) and st.get(v).kind in ("list", "dict", "set")):
+        yield st, exc("TypeError", "float() argument must be a string or a real number")
     else:
-        yield st, exc("TypeError", "float() argument")
+        raise Unsupported("float() of %r" % (v,))  # objects with __float__ / __index__, bytes, inf ...
 
 
 def make_range(I, st, args):
